@@ -219,6 +219,7 @@ func checkICCWebp(p *Program, r *Report) {
 				}
 			}
 			good := tagOK && cp != nil
+			stageWhy := ""
 			if good {
 				start, _ := cp.Args[1].(*Form)
 				n, _ := cp.Args[2].(*Form)
@@ -228,8 +229,16 @@ func checkICCWebp(p *Program, r *Report) {
 				if good && !(sv.Base != nil && sv.Base.Fn == "call:(*bytes.Buffer).Bytes" && len(sv.Base.Args) == 1 && valKey(sv.Base.Args[0]) == valKey(cp.Recv)) && !(cp.Kind == "readinto" && valKey(md.ICCData) == valKey(cp.Recv)) {
 					good = false
 				}
+				if good {
+					if ok, w := freshStage(o, cp.Recv, cp); !ok {
+						good = false
+						stageWhy = w
+					}
+				}
 			}
-			if !good {
+			if !good && stageWhy != "" {
+				dataOK, why = false, "ICCP payload: "+stageWhy
+			} else if !good {
 				dataOK, why = false, fmt.Sprintf("the returned ICC bytes are not exactly the 'ICCP' chunk payload in[38 : 38+LE32(in[34:38])] (chunk tag at 30 required) on the path [%s]; returned %s", func() string {
 					k := condKeys(o)
 					if len(k) > 400 {
@@ -261,6 +270,75 @@ func checkICCWebp(p *Program, r *Report) {
 	r.Check(dataOK && nData > 0, rule, "payload", pos, "returned bytes = 'ICCP' chunk payload in[38 : 38+LE32(in[34:38])], copied with a full-read primitive into a fresh buffer", why)
 	r.Check(errOK && nErr > 0, rule, "damaged", pos, fmt.Sprintf("%d paths with the flag set but a wrong/short chunk: an error is recorded, no bytes", nErr), "flagged but damaged ICC chunk does not yield an error without bytes: "+why)
 	r.Check(dimsOK, rule, "dimensions kept", pos, "every such path still returns the dimensions", "a path with ICC trouble loses the dimensions")
+}
+
+// freshStage reports whether v — the destination of a copy/read/write at event
+// `at` — is storage created empty on this very path (a local bytes.Buffer
+// allocation or a slice from make) that no earlier event has touched: a
+// staging buffer that could carry bytes from an earlier chunk, an earlier call
+// (a pool, a package-level scratch buffer, a parameter) would make the
+// "returned bytes = embedded bytes" chain false.
+func freshStage(o Outcome, v Val, at *Event, resetOK ...bool) (bool, string) {
+	key := valKey(v)
+	if len(resetOK) > 0 && resetOK[0] {
+		// a reused *bytes.Buffer is as good as a new one right after Reset() (only for a
+		// buffer whose contents do not outlive the call)
+		var last *Event
+		for k := range o.St.events {
+			ev := &o.St.events[k]
+			if ev == at {
+				break
+			}
+			touches := ev.Recv != nil && valKey(ev.Recv) == key
+			for _, a := range ev.Args {
+				if a != nil && valKey(a) == key {
+					touches = true
+				}
+			}
+			if touches {
+				last = ev
+			}
+		}
+		if last != nil && last.Kind == "call" && last.Fn == "(*bytes.Buffer).Reset" {
+			return true, ""
+		}
+	}
+	if at != nil && at.Kind == "readinto" && (at.Fn == "io.ReadAll" || at.Fn == "io/ioutil.ReadAll") {
+		return true, "" // ReadAll returns a slice of its own
+	}
+	switch x := v.(type) {
+	case *Ptr:
+		if x.Cell == nil || !x.Cell.Alloc || len(x.Path) != 0 || !namedIs(x.Cell.Type, "bytes", "Buffer") {
+			return false, "the staging buffer " + trunc(key, 60) + " is not a bytes.Buffer allocated by this call"
+		}
+	case *SliceVal:
+		if x.Base == nil || x.Base.Fn != "make" || !x.Lo.Equal(formInt(0)) {
+			return false, "the staging slice " + trunc(key, 60) + " is not a slice made by this call"
+		}
+	default:
+		return false, "the staging buffer " + trunc(key, 60) + " is not storage allocated by this call (a pooled, shared or caller-supplied buffer may still hold earlier bytes)"
+	}
+	for k := range o.St.events {
+		ev := &o.St.events[k]
+		if ev == at {
+			break
+		}
+		if ev.Kind == "make" || ev.Kind == "bounds" {
+			continue
+		}
+		if ev.Kind == "call" && ev.Fn == "(*bytes.Buffer).Grow" {
+			continue // reserves capacity, leaves the contents empty
+		}
+		if ev.Recv != nil && valKey(ev.Recv) == key {
+			return false, "the staging buffer is already used by " + ev.Fn + " before the payload is read into it"
+		}
+		for _, a := range ev.Args {
+			if a != nil && valKey(a) == key {
+				return false, "the staging buffer is already used by " + ev.Fn + " before the payload is read into it"
+			}
+		}
+	}
+	return true, ""
 }
 
 func checkICCPng(p *Program, r *Report) {
@@ -392,6 +470,17 @@ func checkICCPng(p *Program, r *Report) {
 					}
 					if !good {
 						why = "the returned bytes are not what was read to the end (io.Copy into a buffer + Bytes(), or io.ReadAll) from zlib.NewReader over the chunk payload"
+					}
+					// both staging buffers start empty and belong to this call
+					if good {
+						if ok, w := freshStage(o, cp.Recv, cp, true); !ok {
+							good, why = false, "compressed payload: "+w
+						}
+					}
+					if good && cpy != nil {
+						if ok, w := freshStage(o, cpy.Args[0], cpy); !ok {
+							good, why = false, "decompressed profile: "+w
+						}
 					}
 				}
 				// both errors nil on this path
@@ -684,6 +773,12 @@ func checkICCJpeg(p *Program, r *Report) {
 					good = strings.Contains(kk, "index(make#") && strings.Contains(kk, k.Key())
 					sv, _ := md.ICCData.(*SliceVal)
 					good = good && sv != nil && sv.Base != nil && len(sv.Base.Args) == 1 && valKey(sv.Base.Args[0]) == valKey(ra[0])
+					if good {
+						if ok, w := freshStage(out, ra[0], wr); !ok {
+							asmOK, why = false, "assembly: "+w
+							continue
+						}
+					}
 				}
 			}
 			if !good {
